@@ -14,7 +14,7 @@
    whole tree.
    Proofs: ValidateProofs.v.  Concrete instances: ValidateExamples.v. *)
 From Coercion.Base Require Import Plan.
-From Coercion.Validate Require Import Validate WF ValidateProofs ValidateExamples.
+From Coercion.Validate Require Import Validate WF ValidateProofs ValidateExamples ValidateSession.
 
 (* workflow.Validate accepts exactly the well-formed plans (a nil plan is rejected). *)
 Theorem c16_validate_iff :
@@ -93,3 +93,32 @@ Proof.
   exact (conj ex_WF (conj ex_validate (conj ex_supply_inj (conj ex_supply_v7 (conj ex_submit_accepts ex_dup_key))))).
 Qed.
 Print Assumptions c16_nonvacuous.
+
+(* V3 (fixed in 9a05bdd).  A session = the caller submits the SAME plan object again and again,
+   reshaping it in between; the only thing a Submit leaves in the object is the unexported register of
+   its actions (carried : bool, "some action has a register").  After any number of rejected Submits of a
+   fresh object nothing is stored, the object carries no register, and the next Submit is judged on the
+   plan alone: accepted iff well formed (and the vault takes it). *)
+Theorem c16_rejected_submit_has_no_memory :
+  forall (supply : nat -> uid) (create_ok : plan -> bool),
+    (forall i j, u_ix (supply i) = u_ix (supply j) -> i = j) ->
+    (forall i, u_ix (supply i) <> 0%N /\ u_v7 (supply i) = true) ->
+  forall (has_action : option plan -> bool) (now : Z) (bads : list (option plan)) (w : world)
+         (st : world * bool) (rs : list (option uid)),
+    submit_session supply create_ok has_action true now (fresh_obj w) bads = (st, rs) ->
+    Forall (fun r => r = None) rs ->
+    snd st = false /\ w_store (fst st) = w_store w /\
+    forall p st' r,
+      submit_obj supply create_ok has_action true now st (Some p) = (st', r) ->
+      ((exists id, r = Some id) <->
+       WF p /\ create_ok (fst (prepared supply (w_next (fst st)) now p)) = true).
+Proof. exact rejected_submit_has_no_memory. Qed.
+Print Assumptions c16_rejected_submit_has_no_memory.
+
+(* the behaviour before the fix (fixed = false: a Submit that got past populateRegistry leaves the
+   registers set whatever its verdict) refutes it: [blank description; corrected] -> the well-formed
+   corrected plan is refused; with the fix it is accepted *)
+Theorem c16_prefix_memory_refuted :
+  WF ex_plan /\ ex_session false = [None; None] /\ ex_session true = [None; Some (Build_uid 8 true)].
+Proof. exact (conj (proj1 session_prefix_refuted) (conj (proj2 session_prefix_refuted) session_fixed_accepts)). Qed.
+Print Assumptions c16_prefix_memory_refuted.
